@@ -146,6 +146,27 @@ pub fn run(ctx: &Arc<Ctx>) {
             cases.push(Case::Pair { a: hexbig(a), b: hexbig(b), la, lb, full: false, tag });
         }
     }
+    // scalars searched so that some coefficient of the pairing value starts with a zero byte (encoding corner of the 384 bytes)
+    {
+        let mut found = 0;
+        let mut k = g.nonzero_below(&n);
+        for _ in 0..200 {
+            let v = sm9::f12_bytes(&sm9::f12_pow(g0(), &k));
+            if v.chunks(32).any(|c| c[0] == 0) {
+                cases.push(Case::Pair { a: hexbig(&k), b: hexbig(&BigUint::one()), la: one2.clone(), lb: one1.clone(), full: false, tag: "value-with-leading-zero-coefficient".into() });
+                cases.push(Case::Pair { a: hexbig(&BigUint::one()), b: hexbig(&k), la: lam2.clone(), lb: lam1.clone(), full: false, tag: "value-with-leading-zero-coefficient".into() });
+                found += 1;
+                if found == 3 {
+                    break;
+                }
+            }
+            k = (&k + 0x9e3779b9u32) % &n;
+        }
+        ctx.cov("values_with_leading_zero_coefficient", json!(found));
+        if found == 0 {
+            ctx.machinery_error("no pairing value with a leading zero coefficient byte found");
+        }
+    }
     // identity arguments: a or b = 0 mod N
     for (an, a) in [("0", BigUint::zero()), ("N", n.clone()), ("3", BigUint::from(3u32))] {
         for (bn, b) in [("0", BigUint::zero()), ("N", n.clone()), ("5", BigUint::from(5u32))] {
